@@ -134,6 +134,15 @@ theorem tip_is_greatest_validated (t : Rec) (l : List Rec) (hm : t ∈ l) (hv : 
     (hall : ∀ r ∈ l, validScripts r = true → r = t ∨ tipLt r t = true) : pickTip l = some t :=
   pickTip_greatest t l hm hv hall
 
+/-- the tip with **no hypothesis on the table**: whatever the index holds, the chosen tip is a fully validated record of the
+    table and no fully validated record is greater in `(height, hash)` order; and there is no tip (empty chain, nothing
+    delivered) exactly when no record is fully validated.  A header-only, stale-but-unvalidated or failed record can therefore
+    never be the starting point of the walk, however high it is -/
+theorem tip_sound (l : List Rec) :
+    (∀ t, pickTip l = some t → t ∈ l ∧ validScripts t = true ∧ ∀ r ∈ l, validScripts r = true → tipLt t r = false) ∧
+    (pickTip l = none → ∀ r ∈ l, validScripts r = false) :=
+  pickTip_sound l
+
 /-- non-vacuity: two fully validated records at height 7; the one with the greater hash is picked in either table order -/
 example : pickTip [⟨[2], [0], 7, 29, 0, 8⟩, ⟨[1], [0], 7, 29, 0, 90⟩, ⟨[9], [0], 8, 24, 0, 200⟩] = some ⟨[2], [0], 7, 29, 0, 8⟩ ∧
     pickTip [⟨[9], [0], 8, 24, 0, 200⟩, ⟨[1], [0], 7, 29, 0, 90⟩, ⟨[2], [0], 7, 29, 0, 8⟩] = some ⟨[2], [0], 7, 29, 0, 8⟩ := by
